@@ -42,6 +42,7 @@ class CallGraph(object):
         self.out = {}
         self.inn = {}
         self.unresolved = []
+        self.external = []
         self._infer_attr_types()
         for fi in repo.all_functions():
             for call in [n for n in walk_own(fi.node) if isinstance(n, ast.Call)]:
@@ -207,14 +208,15 @@ class CallGraph(object):
                         self._add(fi, t, call, False, "rebound")
                 if found:
                     return
-                if any(not isinstance(c, tuple) for c in classes):
-                    # receiver class known, method not in package: attribute holding a callable
-                    # or inherited from a library base -> fall through to by-name only when the
-                    # name is an instance attribute (callable slot)
-                    pass
+                # receiver class known (or super()): a method that is not defined in the package is
+                # inherited from a library base / object, or is an attribute holding a library callable:
+                # no package edge.  (rebound slots were added above.)
+                if m not in self.rebinds:
+                    self.external.append((fi, call))
+                return
             # by-name over-approximation
             cands = repo.by_name_methods.get(m, [])
-            if m in SPAWNS:
+            if m in SPAWNS or (m.startswith("__") and m.endswith("__")):
                 return
             for t in cands:
                 self._add(fi, t, call, True, "by-name")
